@@ -409,19 +409,78 @@ class QueryPlanner:
 
     def plan_api_db_select(self, query):
         # split to select from api database
-        #     keep only limit and where
-        #     the rest goes to outer select
+        #     the fetch gets 'where' and, if the outer select keeps the fetched rows as they are, order and limit
+        #     the rest goes to the outer select, which runs over the columns of the table
+
+        def _collect(nodes):
+            # functions (can be aggregate or window functions) and names of the columns used in nodes
+            functions, columns = [], []
+
+            def _find(node, **kwargs):
+                if isinstance(node, (Function, ast.WindowFunction)):
+                    functions.append(node)
+                elif isinstance(node, Identifier) and isinstance(node.parts[-1], str):
+                    columns.append(node.parts[-1].lower())
+
+            query_traversal(nodes, _find)
+            return functions, columns
+
+        target_functions, target_columns = _collect(query.targets)
+        order_functions, order_columns = _collect(query.order_by)
+
+        # does the outer select return the fetched rows one to one?
+        keeps_rows = (
+            query.group_by is None
+            and query.having is None
+            and not query.distinct
+            and len(target_functions) == 0
+        )
+
+        # new names of targets are not columns of the table: 'order by' of the fetch can't use them
+        aliases = {t.alias.parts[-1].lower() for t in query.targets if t.alias is not None}
+        has_star = any(
+            isinstance(t, Star) or (isinstance(t, Identifier) and isinstance(t.parts[-1], Star))
+            for t in query.targets
+        )
+        is_plain = all(
+            isinstance(t, Star) or (isinstance(t, Identifier) and t.alias is None)
+            for t in query.targets
+        )
+
+        use_order = (
+            query.order_by is not None
+            and len(order_functions) == 0
+            and all(isinstance(item.field, Identifier) for item in query.order_by)
+            and not any(name in aliases for name in order_columns)
+        )
+
+        # limit cuts the rows after they were grouped, ordered and skipped
+        use_limit = (
+            query.limit is not None
+            and keeps_rows
+            and query.offset is None
+            and (query.order_by is None or use_order)
+        )
+
+        # plain columns can be requested as they are if the outer select does not need other columns
+        use_targets = (
+            is_plain
+            and keeps_rows
+            and (has_star or all(name in target_columns for name in order_columns))
+        )
+
         query2 = Select(
-            targets=query.targets,
+            targets=query.targets if use_targets else [Star()],
             from_table=query.from_table,
             where=query.where,
-            order_by=query.order_by,
-            limit=query.limit,
+            order_by=query.order_by if use_order and (use_limit or query.limit is None) else None,
+            limit=query.limit if use_limit else None,
         )
         prev_step = self.plan_integration_select(query2)
 
         # clear limit and where
-        query.limit = None
+        if use_limit:
+            query.limit = None
         query.where = None
         return self.plan_sub_select(query, prev_step)
 
